@@ -115,9 +115,9 @@ end idxG
 
 theorem moveDelegation_bal (c : Cfg) (frm to : Addr) (s : State) (p) : (moveDelegation c frm to s p).bal = s.bal := rfl
 theorem moveUbd_bal (c : Cfg) (frm to : Addr) (s : State) (p) : (moveUbd c frm to s p).bal = s.bal := by
-  unfold moveUbd; exact foldl_keep (fun s : State => s.bal) _ (by intros; rfl) _ _
+  unfold moveUbd; exact (foldl_keep (fun s : State => s.bal) _ (by intros; rfl) _ _).trans (foldl_keep (fun s : State => s.bal) _ (by intros; rfl) _ _)
 theorem moveRed_bal (c : Cfg) (frm to : Addr) (s : State) (p) : (moveRed c frm to s p).bal = s.bal := by
-  unfold moveRed; exact foldl_keep (fun s : State => s.bal) _ (by intros; rfl) _ _
+  unfold moveRed; exact (foldl_keep (fun s : State => s.bal) _ (by intros; rfl) _ _).trans (foldl_keep (fun s : State => s.bal) _ (by intros; rfl) _ _)
 
 theorem exec_bal (c : Cfg) (s : State) (frm to : Addr) : (stakingExecute c s frm to).bal = s.bal := by
   unfold stakingExecute
@@ -148,14 +148,15 @@ theorem exec2_keep {α : Type} (g : State → α) (c : Cfg) (s : State) (frm to 
 
 theorem moveRed_reds (c : Cfg) (frm to : Addr) (s : State) (p) :
     (moveRed c frm to s p).reds = rekeyStep frm to s.reds p := by
-  unfold moveRed; exact foldl_keep (fun s : State => s.reds) _ (by intros; rfl) _ _
+  unfold moveRed; exact (foldl_keep (fun s : State => s.reds) _ (by intros; rfl) _ _).trans (foldl_keep (fun s : State => s.reds) _ (by intros; rfl) _ _)
 
 theorem moveUbd_keep {α : Type} (g : State → α) (c : Cfg) (frm to : Addr)
     (hg : ∀ (s : State) u i q n, g { s with ubds := u, ubdIdx := i, ubdQ := q, unbId := n } = g s) (s : State) (p) :
     g (moveUbd c frm to s p) = g s := by
   unfold moveUbd
-  refine (foldl_keep g _ (fun s e => ?_) _ _).trans ?_
-  · exact hg s s.ubds s.ubdIdx _ _
+  refine (foldl_keep g _ (fun s e => ?_) _ _).trans ((foldl_keep g _ (fun s e => ?_) _ _).trans ?_)
+  · exact hg s s.ubds s.ubdIdx _ s.unbId
+  · exact hg s s.ubds s.ubdIdx s.ubdQ _
   · exact hg s _ _ s.ubdQ s.unbId
 
 theorem exec2_reds (c : Cfg) (s : State) (frm to : Addr) : (exec2 c s frm to).reds = s.reds :=
@@ -187,10 +188,10 @@ theorem mkDst_inj (x : Val × Val) (a : Addr) (y : Val × Val) (b : Addr) (h : m
 
 theorem moveRed_redSrcIdx (c : Cfg) (frm to : Addr) (s : State) (p) :
     (moveRed c frm to s p).redSrcIdx = idxStepG mkSrc frm to s.redSrcIdx p := by
-  unfold moveRed; exact foldl_keep (fun s : State => s.redSrcIdx) _ (by intros; rfl) _ _
+  unfold moveRed; exact (foldl_keep (fun s : State => s.redSrcIdx) _ (by intros; rfl) _ _).trans (foldl_keep (fun s : State => s.redSrcIdx) _ (by intros; rfl) _ _)
 theorem moveRed_redDstIdx (c : Cfg) (frm to : Addr) (s : State) (p) :
     (moveRed c frm to s p).redDstIdx = idxStepG mkDst frm to s.redDstIdx p := by
-  unfold moveRed; exact foldl_keep (fun s : State => s.redDstIdx) _ (by intros; rfl) _ _
+  unfold moveRed; exact (foldl_keep (fun s : State => s.redDstIdx) _ (by intros; rfl) _ _).trans (foldl_keep (fun s : State => s.redDstIdx) _ (by intros; rfl) _ _)
 
 theorem exec_redSrcIdx (c : Cfg) (s : State) (frm to : Addr) :
     (stakingExecute c s frm to).redSrcIdx = (entriesOf s.reds frm).foldl (idxStepG mkSrc frm to) s.redSrcIdx := by
@@ -205,38 +206,44 @@ theorem exec_redDstIdx (c : Cfg) (s : State) (frm to : Addr) :
 
 /-! #### time-queue slices -/
 
-theorem moveUbd_ubdQ (c : Cfg) (frm to : Addr) (s : State) (p) :
+theorem moveUbd_ubdQ (c : Cfg) (h1 : c.qEveryEntry = true) (h2 : c.qByDelegator = true) (frm to : Addr) (s : State) (p) :
     (moveUbd c frm to s p).ubdQ = (p.2.map (·.1)).foldl (qStep frm to) s.ubdQ := by
-  unfold moveUbd
-  rw [List.foldl_map]
-  exact foldl_proj (fun s : State => s.ubdQ) _ (fun q (e : Time × Nat × Nat) => qStep frm to q e.1) (fun _ _ => rfl) _ _
+  unfold moveUbd qEntries
+  rw [List.foldl_map, h1]
+  simp only [h2, ↓reduceIte]
+  refine (foldl_proj (fun s : State => s.ubdQ) _ (fun q (e : Time × Nat × Nat) => qStep frm to q e.1) (fun _ _ => rfl) _ _).trans ?_
+  congr 1
+  exact foldl_keep (fun s : State => s.ubdQ) _ (by intros; rfl) _ _
 
-theorem moveRed_redQ (c : Cfg) (frm to : Addr) (s : State) (p) :
+theorem moveRed_redQ (c : Cfg) (h1 : c.qEveryEntry = true) (h2 : c.qByDelegator = true) (frm to : Addr) (s : State) (p) :
     (moveRed c frm to s p).redQ = (p.2.map (·.1)).foldl (qStep frm to) s.redQ := by
-  unfold moveRed
-  rw [List.foldl_map]
-  exact foldl_proj (fun s : State => s.redQ) _ (fun q (e : Time × Nat × Nat) => qStep frm to q e.1) (fun _ _ => rfl) _ _
+  unfold moveRed qEntries
+  rw [List.foldl_map, h1]
+  simp only [h2, ↓reduceIte]
+  refine (foldl_proj (fun s : State => s.redQ) _ (fun q (e : Time × Nat × Nat) => qStep frm to q e.1) (fun _ _ => rfl) _ _).trans ?_
+  congr 1
+  exact foldl_keep (fun s : State => s.redQ) _ (by intros; rfl) _ _
 
 theorem moveRed_ubdQ (c : Cfg) (frm to : Addr) (s : State) (p) : (moveRed c frm to s p).ubdQ = s.ubdQ := by
-  unfold moveRed; exact foldl_keep (fun s : State => s.ubdQ) _ (by intros; rfl) _ _
+  unfold moveRed; exact (foldl_keep (fun s : State => s.ubdQ) _ (by intros; rfl) _ _).trans (foldl_keep (fun s : State => s.ubdQ) _ (by intros; rfl) _ _)
 
-theorem exec_ubdQ (c : Cfg) (s : State) (frm to : Addr) :
+theorem exec_ubdQ (c : Cfg) (hq1 : c.qEveryEntry = true) (hq2 : c.qByDelegator = true) (s : State) (frm to : Addr) :
     (stakingExecute c s frm to).ubdQ = (entryTimes s.ubds frm).foldl (qStep frm to) s.ubdQ := by
   rw [stakingExecute_eq]
   refine (foldl_keep (fun s : State => s.ubdQ) _ (moveRed_ubdQ c frm to) _ _).trans ?_
   unfold exec2
   refine (foldl_proj (fun s : State => s.ubdQ) (moveUbd c frm to)
-    (fun q p => (p.2.map (·.1)).foldl (qStep frm to) q) (moveUbd_ubdQ c frm to) _ _).trans ?_
+    (fun q p => (p.2.map (·.1)).foldl (qStep frm to) q) (moveUbd_ubdQ c hq1 hq2 frm to) _ _).trans ?_
   rw [foldl_flatMap (qStep frm to) (fun p : (Addr × Val) × List (Time × Nat × Nat) => p.2.map (·.1))]
   have h1 : (exec1 c s frm to).ubds = s.ubds := exec1_keep (fun s => s.ubds) c s frm to (fun _ _ => rfl)
   have h2 : (exec1 c s frm to).ubdQ = s.ubdQ := exec1_keep (fun s => s.ubdQ) c s frm to (fun _ _ => rfl)
   rw [h1, h2]; rfl
 
-theorem exec_redQ (c : Cfg) (s : State) (frm to : Addr) :
+theorem exec_redQ (c : Cfg) (hq1 : c.qEveryEntry = true) (hq2 : c.qByDelegator = true) (s : State) (frm to : Addr) :
     (stakingExecute c s frm to).redQ = (entryTimes s.reds frm).foldl (qStep frm to) s.redQ := by
   rw [stakingExecute_eq]
   refine (foldl_proj (fun s : State => s.redQ) (moveRed c frm to)
-    (fun q p => (p.2.map (·.1)).foldl (qStep frm to) q) (moveRed_redQ c frm to) _ _).trans ?_
+    (fun q p => (p.2.map (·.1)).foldl (qStep frm to) q) (moveRed_redQ c hq1 hq2 frm to) _ _).trans ?_
   rw [foldl_flatMap (qStep frm to) (fun p : (Addr × Val × Val) × List (Time × Nat × Nat) => p.2.map (·.1))]
   rw [exec2_reds, exec2_redQ]; rfl
 
@@ -326,7 +333,7 @@ theorem exec_startInfo (c : Cfg) (s : State) (frm to : Addr) :
     (stakingExecute c s frm to).startInfo = (entriesOf s.dels frm).foldl (siStep frm to) s.startInfo := by
   rw [stakingExecute_eq]
   refine (foldl_keep (fun s : State => s.startInfo) _ (fun s p => by
-    unfold moveRed; exact foldl_keep (fun s : State => s.startInfo) _ (by intros; rfl) _ _) _ _).trans ?_
+    unfold moveRed; exact (foldl_keep (fun s : State => s.startInfo) _ (by intros; rfl) _ _).trans (foldl_keep (fun s : State => s.startInfo) _ (by intros; rfl) _ _)) _ _).trans ?_
   unfold exec2
   refine (foldl_keep (fun s : State => s.startInfo) _ (moveUbd_keep _ c frm to (fun _ _ _ _ _ => rfl)) _ _).trans ?_
   exact foldl_proj (fun s : State => s.startInfo) (moveDelegation c frm to) (siStep frm to) (fun _ _ => rfl) _ _
